@@ -108,9 +108,45 @@ func runPO(ld *Loaded, r *sym.Run, st *sym.State, j Job, opt Options, scen int) 
 		queries = append(queries, sym.POQuery{Name: "quiescence", Quiescence: true, Goal: sym.AssertGoal(opt.Prop, true)})
 		queries = append(queries, sym.POQuery{Name: "witness:quiescent", Quiescence: true, Goal: func(po *sym.PO) *smt.Term { return smt.True }})
 	}
+	kf := loadKnown()
+	solveQ := func(q sym.POQuery) sym.POResult {
+		// assertion queries: when every failure of the model is a listed known finding, those
+		// assertion events are excluded and the query is posed again, so that a different
+		// violation hiding behind a known one is still found
+		isAssert := q.Name == "safety" || q.Name == "quiescence"
+		if !isAssert {
+			return po.Solve(q, to)
+		}
+		excl := map[int]bool{}
+		var known []string
+		for round := 0; round < 8; round++ {
+			qq := q
+			qq.Goal = sym.AssertGoalExcl(opt.Prop, q.Name == "quiescence", excl)
+			res := po.Solve(qq, to)
+			if res.Res != smt.Sat {
+				res.KnownHit = known
+				return res
+			}
+			allKnown := len(res.FailedEv) > 0
+			for _, e := range res.FailedEv {
+				v := sym.Violation{Label: e.Label, Pos: q.Name + " " + e.Pos, Stack: e.Stack, History: poTraceText(res)}
+				if k := matchKnown(kf, opt.Prop, j.Name(), v); k != nil {
+					excl[e.ID] = true
+					known = append(known, k.What)
+				} else {
+					allKnown = false
+				}
+			}
+			if !allKnown {
+				res.KnownHit = known
+				return res
+			}
+		}
+		return sym.POResult{Name: q.Name, Res: smt.Unknown, KnownHit: known}
+	}
 	resCh := make(chan sym.POResult, len(queries))
 	for _, q := range queries {
-		go func(q sym.POQuery) { resCh <- po.Solve(q, to) }(q)
+		go func(q sym.POQuery) { resCh <- solveQ(q) }(q)
 	}
 	for range queries {
 		res := <-resCh
